@@ -352,12 +352,24 @@ func (g *Gen) operation(method string, url string, hasID bool, pathLevelID bool,
 			op.Params = append(op.Params, g.param("query", nm, defs))
 		}
 	}
+	seenH := map[string]bool{}
 	for i, n := 0, g.R.Intn(2); i < n; i++ {
 		nm := g.R.Pick(headerNames)
-		if !seen[nm] {
-			seen[nm] = true
+		if g.R.Chance(1, 3) {
+			// a parameter is identified by name AND location: a header may share its name with a query parameter
+			nm = g.R.Pick(queryNames)
+			if seen[nm] {
+				g.hit("param:same-name-in-two-locations")
+			}
+		}
+		if !seenH[nm] {
+			seenH[nm] = true
 			op.Params = append(op.Params, g.param("header", nm, defs))
 		}
+	}
+	if hasID && !seen["id"] && g.R.Chance(1, 4) {
+		op.Params = append(op.Params, g.param("query", "id", defs))
+		g.hit("param:same-name-in-two-locations")
 	}
 	if method != "get" && method != "delete" && method != "head" {
 		if g.R.Chance(3, 5) {
